@@ -349,7 +349,9 @@ def c01_r4(ctx):
         ctx.check(bool(ok), key(fi, "pairing"), f"classes registered for generation {sorted(registered)} differ from classes named in annotations {sorted(annotated)}", fi.loc(),
                   okmsg=f"{fn}: {len(registered)} annotation/class pairs agree")
         # every append of RelatedClassData goes to context.related_classes
-        apps = [c for c in walk_no_nested(fi.node) if isinstance(c, ast.Call) and isinstance(c.func, ast.Attribute) and c.func.attr == "append" and allargs(c) and isinstance(allargs(c)[0], ast.Call) and is_name(allargs(c)[0].func, "RelatedClassData")]
+        apps = [c for c in walk_no_nested(fi.node) if isinstance(c, ast.Call) and isinstance(c.func, ast.Attribute) and allargs(c) and (
+            (c.func.attr == "append" and isinstance(allargs(c)[0], ast.Call) and is_name(allargs(c)[0].func, "RelatedClassData")) or
+            (c.func.attr == "extend" and isinstance(allargs(c)[0], (ast.GeneratorExp, ast.ListComp)) and isinstance(allargs(c)[0].elt, ast.Call) and is_name(allargs(c)[0].elt.func, "RelatedClassData")))]
         ctx.check(len(apps) == len(registered) and all(norm(a.func.value) == "context.related_classes" for a in apps), key(fi, "registration sink"),
                   "RelatedClassData is built but not appended to context.related_classes", fi.loc(), okmsg=f"{fn}: related classes appended to the context")
 
@@ -704,8 +706,14 @@ def c08_r4(ctx):
         probs.append(f"{len(o)} paths through the directive loop")
     else:
         effs = [norm(strip_pre(e)) for e in o[0].effects]
-        A = "self._parse_mixin_arguments(<elem>(directives))"
-        dv = o[0].env.get("directives")
+        # the iterated collection: whatever `<elem>(...)` of the loop ranges over (a local or the expression itself)
+        d0 = None
+        for e in o[0].effects:
+            for n in ast.walk(strip_pre(e)):
+                if d0 is None and isinstance(n, ast.Call) and is_name(n.func, "<elem>") and n.args:
+                    d0 = n.args[0]
+        A = f"self._parse_mixin_arguments(<elem>({norm(d0) if d0 is not None else 'directives'}))"
+        dv = strip_pre(o[0].deref(d0)) if isinstance(d0, ast.Name) else (strip_pre(d0) if d0 is not None else None)
         if dv is None or norm(dv) != "[d for d in node.directives if d.name and d.name.value == MIXIN_NAME]":
             probs.append(f"the directives considered are {norm(dv) if dv is not None else None}, expected exactly the @mixin directives of the node")
         imp = f"self._imports.append(generate_import_from(names=[{A}[MIXIN_IMPORT_NAME]], from_={A}[MIXIN_FROM_NAME]))"
@@ -1068,7 +1076,7 @@ def c01_r12(ctx):
                 return inline if w == "inline" else spread
             return None
         return atom
-    eff = lambda c: norm(c.func) == "context.related_classes.append"
+    eff = lambda c: norm(c.func) in ("context.related_classes.append", "context.related_classes.extend")
     for inline, spread in ((True, False), (False, True), (True, True)):
         outs = [o for o in Interp(fi, mk(inline, spread), is_effect=eff).run() if o.kind == "return" and not any("loop skipped" in t for t in o.trace)]
         sc = f"inline={'yes' if inline else 'no'} spreads-on-subtypes={'yes' if spread else 'no'}"
@@ -1077,36 +1085,47 @@ def c01_r12(ctx):
         if not good or not (inline and spread):
             continue
         o = outs[0]
-        # the type conditions iterated: a comprehension / collection over both sources
-        names_expr = None
-        for k, v in o.env.items():
-            if k.startswith("<"):
-                continue
-            vv = strip_pre(v)
-            if isinstance(vv, ast.Call) and is_name(vv.func, "<elem>") and "type_condition.name.value" in norm(vv):
-                names_expr = vv.args[0]
-        if names_expr is None:
-            raise AnalysisError("parse_interface_type: loop over the type-condition names not found")
-        comps = [n for n in ast.walk(names_expr) if isinstance(n, (ast.SetComp, ast.ListComp, ast.GeneratorExp))]
+        # the type conditions: the comprehension(s) that read `.type_condition.name.value`, wherever they are bound
+        comps = [n for n in ast.walk(fi.node) if isinstance(n, (ast.SetComp, ast.ListComp, ast.GeneratorExp)) and "type_condition.name.value" in norm(n.elt)]
+        if not comps:
+            raise AnalysisError("parse_interface_type: no collection of the fragments' type conditions found")
+        envn = {st.targets[0].id: st.value for st in ast.walk(fi.node) if isinstance(st, ast.Assign) and len(st.targets) == 1 and isinstance(st.targets[0], ast.Name)}
         used = set()
         for c in comps:
             for g in c.generators:
-                for t in seq_terms(g.iter):
-                    pass
-                for n in ast.walk(g.iter):
-                    w = which(n) if isinstance(n, (ast.Name, ast.Call)) else None
-                    if w:
-                        used.add(w)
+                work, seen_ = [g.iter], 0
+                while work and seen_ < 20:
+                    seen_ += 1
+                    n0 = work.pop()
+                    for n in ast.walk(n0):
+                        w = which(n) if isinstance(n, (ast.Name, ast.Call)) else None
+                        if w:
+                            used.add(w)
+                        elif isinstance(n, ast.Name) and n.id in envn and n.id not in ("inline_fragments", "fragments_on_subtypes"):
+                            work.append(envn[n.id])
                 if isinstance(strip_pre(g.iter), ast.BoolOp):
                     used.add("<or>")
         ctx.check(used == {"inline", "spread"}, key(fi, "type conditions"), f"the per-type classes are derived from {sorted(used)} only: with `... on A {{..}}` next to `...FragmentOnB` one of the member types gets no class, "
                   "so its payloads are validated against the interface's base class and the fragment's fields are lost", fi.loc(), okmsg="type conditions = inline fragments + fragments on subtypes")
-        srt = isinstance(strip_pre(names_expr), ast.Call) and is_name(strip_pre(names_expr).func, "sorted")
+        from .determinism import parents_of as _parents_of
+        par = _parents_of(fi)
+        srt = all(isinstance(par.get(id(c)), ast.Call) and is_name(par.get(id(c)).func, "sorted") for c in comps)
         ctx.check(srt, key(fi, "sorted"), "the type-condition names are not sorted (class order would follow set iteration order)", fi.loc(), okmsg="type-condition names sorted")
-        effs = [norm(strip_pre(e)) for e in o.effects]
-        el = f"<elem>({norm(names_expr)})"
-        want = f"context.related_classes.append(RelatedClassData(class_name=class_name + {el}, type_name={el}))"
-        ctx.check(any(e == want for e in effs), key(fi, "related class"), f"no RelatedClassData(class_name + <type>, type_name=<type>) is recorded per type condition: {[e[:90] for e in effs]}", fi.loc(),
+        # one RelatedClassData(class_name + T, type_name=T) per type condition T reaches context.related_classes
+        from ..util import comp_struct as _cs
+        per = False
+        for e in o.effects:
+            e = strip_pre(e)
+            a0 = allargs(e)[0] if isinstance(e, ast.Call) and allargs(e) else None
+            if isinstance(e, ast.Call) and isinstance(e.func, ast.Attribute) and e.func.attr == "append" and isinstance(a0, ast.Call) and is_name(a0.func, "RelatedClassData"):
+                cn, tn = kw(a0, "class_name"), kw(a0, "type_name")
+                if cn is not None and tn is not None and "<elem>" in norm(tn) and norm(cn) in (f"class_name + {norm(tn)}", f"f'{{class_name}}{{{norm(tn)}}}'"):
+                    per = True
+            if isinstance(e, ast.Call) and isinstance(e.func, ast.Attribute) and e.func.attr == "extend" and isinstance(a0, (ast.GeneratorExp, ast.ListComp)):
+                cs = _cs(a0)
+                if cs is not None and cs[0] in ("RelatedClassData(class_name=class_name + $0, type_name=$0)", "RelatedClassData(class_name=f'{class_name}{$0}', type_name=$0)") and "type_condition.name.value" in str(cs[1][0][0]):
+                    per = True
+        ctx.check(per, key(fi, "related class"), f"no RelatedClassData(class_name + <type>, type_name=<type>) is recorded per type condition: {[norm(strip_pre(e))[:90] for e in o.effects]}", fi.loc(),
                   okmsg="per type condition: RelatedClassData(class_name + type, type)")
     outs = [o for o in Interp(fi, mk(False, False), is_effect=eff).run() if o.kind == "return"]
     good = bool(outs) and all(isinstance(strip_pre(o.value), ast.Call) and dotted(strip_pre(o.value).func) == "generate_annotation_name" for o in outs)
